@@ -176,8 +176,8 @@ type e6env struct {
 	subst   map[types.Object]string // local -> canonical text
 	state   map[types.Object]bool   // variables assigned in loops/branches: kept as named state
 	nstate  int
-	rename  map[string]string                              // selector/field renames (stated renaming)
-	callees map[types.Object]string                        // function object -> canonical name
+	rename  map[string]string                                // selector/field renames (stated renaming)
+	callees map[types.Object]string                          // function object -> canonical name
 	inline  func(call *ast.CallExpr, e *e6env) (*bexp, bool) // optional inlining of helper predicates
 	err     string
 }
